@@ -1166,6 +1166,182 @@ def judge_multi(case, st, out, err):
 
 
 
+# ------------------------------------------------------------------------ date + time of day (P lines)
+DT_OUT = '%Y-%m-%d %H:%M:%S'
+DT_FORMATS = [('Y', 'm', 'd'), ('m', 'd', 'Y')]          # input_datetime_io, timelog_datetime_io (times.cc)
+DT_RANGE = {'Y': (0, 9999, 4), 'm': (1, 12, 2), 'd': (1, 31, 2), 'H': (0, 23, 2), 'M': (0, 59, 2), 'S': (0, 61, 2)}
+
+
+def strptime_dt(text, order):
+    """glibc strptime for `%a/%b/%c %H:%M:%S` (a b c = order): the fields read and the bytes left over, or None.
+    A number skips blanks, takes digits while the value can still stay in range (get_number), a blank in the
+    format matches any run of blanks, the other bytes match themselves."""
+    pos = 0
+    got = {}
+    for k, item in enumerate([order[0], '/', order[1], '/', order[2], ' ', 'H', ':', 'M', ':', 'S']):
+        if item == ' ':
+            while pos < len(text) and text[pos] in ' \t':
+                pos += 1
+        elif item in '/:':
+            if text[pos:pos + 1] != item:
+                return None
+            pos += 1
+        else:
+            lo, hi, n = DT_RANGE[item]
+            while pos < len(text) and text[pos] == ' ':
+                pos += 1
+            if not text[pos:pos + 1].isdigit() or not text[pos].isascii():
+                return None
+            val = 0
+            while True:
+                val = val * 10 + int(text[pos])
+                pos += 1
+                n -= 1
+                if not (n > 0 and val * 10 <= hi and text[pos:pos + 1].isdigit()):
+                    break
+            if val < lo or val > hi:
+                return None
+            got[item] = val
+    return got, text[pos:]
+
+
+def model_datetime(text):
+    """parse_datetime (times.cc) as the code has it: `.` and `-` become `/`, the two formats in turn, the struct tm
+    handed to boost (date constructor checks the day, the time of day is a duration added to it)."""
+    buf = text.replace('.', '/').replace('-', '/')
+    for order in DT_FORMATS:
+        r = strptime_dt(buf, order)
+        if r:
+            f = r[0]
+            if not (1400 <= f['Y'] <= 9999) or f['d'] > dim(f['Y'], f['m']):
+                return ('err',)
+            t = datetime.datetime(f['Y'], f['m'], f['d']) + datetime.timedelta(hours=f['H'], minutes=f['M'], seconds=f['S'])
+            return ('ok', t.strftime('%Y-%m-%d %H:%M:%S') if t.year >= 1000 else '%04d' % t.year + t.strftime('-%m-%d %H:%M:%S'))
+    return ('err',)
+
+
+DT_TIME_RE = re.compile(r'(\d{1,2}):(\d{1,2}):(\d{1,2})$')
+def intent_datetime(y, m, d, ttext):
+    """What the property text makes of DATE TIME: the moment it denotes, or None when it is not a real one."""
+    mm = DT_TIME_RE.match(ttext)
+    if not mm or not py_valid(y, m, d):
+        return None
+    h, mi, sec = (int(x) for x in mm.groups())
+    if h > 23 or mi > 59 or sec > 59:
+        return None
+    return '%04d-%02d-%02d %02d:%02d:%02d' % (y, m, d, h, mi, sec)
+
+
+def dt_symbol(i):
+    return 'Q' + ''.join(chr(65 + (i // 26 ** k) % 26) for k in range(4))
+
+
+def dt_journal(cases, skip=()):
+    lines = ['P %s %s %s $2' % (c['date'], c['time'], dt_symbol(i)) if i not in skip else '; skipped' for i, c in enumerate(cases)]
+    lines += ['', '2020/01/01 x'] + ['  A  1 %s' % dt_symbol(i) for i in range(len(cases))] + ['  B', '']
+    return '\n'.join(lines)
+
+
+DT_ARGS = ['prices', '--prices-format', '%(display_account)|%(format_datetime(datetime, "' + DT_OUT + '"))\\n']
+def run_datetimes(ctx, name, cases):
+    """One P line per case; lines ledger rejects are named in its messages and taken out for the second run."""
+    path = ctx.path(name + '.dat')
+    open(path, 'w').write(dt_journal(cases))
+    st, out, err = lib.run_ledger(['-f', path] + DT_ARGS, timeout=300)
+    bad = {}
+    cur = None
+    for l in err.decode('latin-1').split('\n'):
+        mm = re.match(r'While parsing file ".*", line (\d+):', l)
+        if mm:
+            cur = int(mm.group(1)) - 1
+        elif l.startswith('Error: ') and cur is not None and cur < len(cases):
+            bad.setdefault(cur, l[7:])
+    if bad:
+        open(path, 'w').write(dt_journal(cases, skip=bad))
+        st, out, err = lib.run_ledger(['-f', path] + DT_ARGS, timeout=300)
+    rows = dict(r.split('|', 1) for r in out.decode('latin-1').split('\n') if '|' in r)
+    res = []
+    for i in range(len(cases)):
+        if i in bad:
+            res.append(('err', bad[i]))
+        elif dt_symbol(i) in rows:
+            res.append(('ok', rows[dt_symbol(i)]))
+        else:
+            res.append(('lost', (st, err.decode('latin-1')[:200])))
+    return res
+
+
+def judge_datetime(c, got):
+    want = intent_datetime(c['y'], c['m'], c['d'], c['time'])
+    case = dict(dt=True, date=c['date'], time=c['time'], kind=c['kind'])
+    if want is not None:
+        if got[0] != 'ok':
+            return dict(key='rejected:datetime:' + c['kind'], desc='`P %s %s` is a real moment and is rejected' % (c['date'], c['time']), case=case, observed=str(got), required=want)
+        if got[1] != want:
+            return dict(key='shifted:datetime:' + c['kind'], desc='`P %s %s` is read as %s' % (c['date'], c['time'], got[1]), case=case, observed=got[1], required=want)
+    elif got[0] == 'ok':
+        return dict(key='accepted:datetime:' + c['kind'], desc='`P %s %s` is not a real date and time of day and is accepted, read as %s' % (c['date'], c['time'], got[1]),
+                    case=case, observed=got[1], required='an error')
+    return None
+
+
+def g_datetime(ctx, rng, res, n):
+    """Dates with a time of day, as parse_datetime reads them on `P DATE TIME SYMBOL PRICE` lines: real moments in padded and
+    unpadded spellings, impossible hours/minutes/seconds (60 and 61 are what strptime's %S still takes), text after the
+    seconds, missing fields, impossible days."""
+    cases = []
+    def add(kind, y, m, d, ttext, sep='/', us=False):
+        date = '%02d%s%02d%s%04d' % (m, sep, d, sep, y) if us else spell(y, m, d, sep, zm=rng.random() < .8, zd=rng.random() < .8)
+        cases.append(dict(kind=kind, y=y, m=m, d=d, date=date, time=ttext))
+    for _ in range(n):
+        y = rng.choice([rng.randrange(1400, 2021), rng.randrange(1990, 2021), 2020])      # the prices report leaves out prices later than today
+        m = rng.randrange(1, 13)
+        d = rng.choice([rng.randrange(1, dim(y, m) + 1), dim(y, m), 1])
+        h, mi, sec = rng.choice([0, 23, 12, rng.randrange(24)]), rng.choice([0, 59, rng.randrange(60)]), rng.choice([0, 59, rng.randrange(60)])
+        sep = rng.choice(SEPS)
+        k = rng.randrange(12)
+        if k <= 1:
+            add('padded', y, m, d, '%02d:%02d:%02d' % (h, mi, sec), sep)
+        elif k == 2:
+            add('unpadded', y, m, d, '%d:%d:%d' % (h, mi, sec), sep)
+        elif k == 3:
+            add('month-first', y, m, d, '%02d:%02d:%02d' % (h, mi, sec), sep, us=True)
+        elif k == 4:
+            add('second-60', y, m, d, '%02d:%02d:%02d' % (h, mi, rng.choice([60, 61])), sep)
+        elif k == 5:
+            add('second-above-61', y, m, d, '%02d:%02d:%02d' % (h, mi, rng.randrange(62, 100)), sep)
+        elif k == 6:
+            add('minute-above-59', y, m, d, '%02d:%02d:%02d' % (h, rng.randrange(60, 100), sec), sep)
+        elif k == 7:
+            add('hour-above-23', y, m, d, '%02d:%02d:%02d' % (rng.randrange(24, 100), mi, sec), sep)
+        elif k == 8:
+            add('trailing', y, m, d, '%02d:%02d:%02d' % (h, mi, sec) + rng.choice(['x', 'Z', '0', '7', ':00', '.5', '+01:00', 'pm', ':', '/', ',']), sep)
+        elif k == 9:
+            add('fields-missing', y, m, d, rng.choice(['%02d' % h, '%02d:%02d' % (h, mi), '%02d:%02d:' % (h, mi), '%02d::%02d' % (h, sec)]), sep)
+        elif k == 10:
+            mm2 = rng.choice([2, 4, 6, 9, 11, 2])
+            add('impossible-day', y, mm2, dim(y, mm2) + 1, '%02d:%02d:%02d' % (h, mi, sec), sep)
+        else:
+            add('end-of-day', y, m, d, rng.choice(['23:59:59', '23:59:60', '23:59:61', '24:00:00', '00:00:00']), sep)
+    for c in cases:
+        if c['kind'] == 'end-of-day':
+            c['kind'] = 'second-60' if c['time'][6:] in ('60', '61') else 'padded' if c['time'] < '24' else 'hour-above-23'
+    got = run_datetimes(ctx, 'datetimes', cases)
+    for c, g in zip(cases, got):
+        res.evaluations += 1
+        res.traces += 1
+        res.count('kind:datetime-' + c['kind'])
+        res.nontrivial.add('datetime|%s|%s' % (c['date'], c['time']))
+        want = model_datetime(c['date'] + ' ' + c['time'])
+        if (g[0], g[1] if g[0] == 'ok' else None) != (want[0], want[1] if want[0] == 'ok' else None):
+            res.disagreements.append(dict(name='C14/datetime-' + c['kind'], case=dict(date=c['date'], time=c['time']), impl=str(g), model=str(want)))
+        v = judge_datetime(c, g)
+        if v:
+            res.violations.append(v)
+        if c['kind'] in ('second-60', 'trailing') and sum(1 for x in res.samples if 'datetime' in x) < 2:
+            res.samples.append(dict(datetime='P %s %s' % (c['date'], c['time']), ledger=str(g), model=str(want)))
+
+
 # ------------------------------------------------------------------------------------------ the run
 CANON_RE = re.compile(r'\d{4}/\d\d/\d\d$')
 
@@ -1389,6 +1565,7 @@ def run(ctx, small=False):
     run_groups(ctx, res, groups)
     g_order(ctx, rng, res, ctx.scale(2000, 20000))
     g_multi(ctx, rng, res, ctx.scale(120, 1200) if not small else 60)
+    g_datetime(ctx, rng, res, ctx.scale(1500, 12000) if not small else 300)
     return res
 
 
@@ -1405,6 +1582,17 @@ def search(ctx, broken):
 def replay(ctx, obj):
     res = lib.Result()
     case = obj.get('case') or {}
+    if case.get('dt'):
+        m3 = re.match(r'(\d+)\D(\d+)\D(\d+)$', case['date'])
+        a, b, c3 = (int(x) for x in m3.groups())
+        y, m, d = (a, b, c3) if a > 31 else (c3, a, b)
+        c = dict(kind=case['kind'], y=y, m=m, d=d, date=case['date'], time=case['time'])
+        got = run_datetimes(ctx, 'replay', [c])[0]
+        print('replay: P %s %s -> %s; model of the code: %s; the property: %s' % (c['date'], c['time'], got, model_datetime(c['date'] + ' ' + c['time']), intent_datetime(y, m, d, c['time']) or 'an error'))
+        v = judge_datetime(c, got)
+        if v:
+            res.violations.append(dict(key=v['key'], desc=v['desc']))
+        return res
     if case.get('multi'):
         path = ctx.path('replay.dat')
         open(path, 'w', encoding='latin-1').write(case['journal'])
